@@ -32,7 +32,7 @@ ROWS = st.one_of(st.just("all"), st.lists(fl(0.0, 0.999), min_size=1, max_size=3
 def op_spec(draw, network):
     kinds = ["insert", "insert", "delete_channel", "set", "set", "add_to_group", "record", "record", "delete_recordings",
              "stimulate", "clamp", "delete_stimuli", "delete_clamps", "make_trainable", "delete_trainables", "init_states"]
-    kinds += ["connect", "connect", "set_edge", "record_edge"] if network else ["set_ncomp", "set_ncomp"]
+    kinds += ["connect", "connect", "set_edge", "record_edge", "make_trainable_edge", "make_trainable_edge", "delete_trainables_edge"] if network else ["set_ncomp", "set_ncomp"]
     k = draw(st.sampled_from(kinds))
     op = {"op": k}
     if k == "insert":
@@ -62,6 +62,10 @@ def op_spec(draw, network):
     elif k == "set_edge":
         op.update(pick=draw(fl(0.0, 0.999)), edges=draw(ROWS), u=draw(fl(0.0, 1.0)))
     elif k == "record_edge":
+        op.update(pick=draw(fl(0.0, 0.999)), edges=draw(ROWS))
+    elif k == "make_trainable_edge":
+        op.update(pick=draw(fl(0.0, 0.999)), edges=draw(ROWS), u=draw(fl(0.0, 1.0)))
+    elif k == "delete_trainables_edge":
         op.update(pick=draw(fl(0.0, 0.999)), edges=draw(ROWS))
     return op
 
@@ -193,7 +197,7 @@ def resolve(m, op):
         post = min(int(op["post"] * (N - 1)), N - 2)
         post = post if post < pre else post + 1
         return {"op": k, "pre": pre, "post": post, "type": op["type"]}
-    if k in ("set_edge", "record_edge"):
+    if k in ("set_edge", "record_edge", "make_trainable_edge", "delete_trainables_edge"):
         ed = m.base.edges
         if len(ed) == 0:
             return None
@@ -205,6 +209,16 @@ def resolve(m, op):
             p = _pick(list(table["params"]) + list(table["states"]), op["u"])
             val = float(1e-4 + 1e-3 * op["u"]) if p.startswith("g") else (float(0.05 + 0.9 * op["u"]) if p in table["states"] else float({**table["params"]}[p]) * (0.5 + op["u"]))
             return {"op": k, "key": f"{t}_{p}", "edges": sel, "val": val}
+        if k == "make_trainable_edge":
+            # synaptic parameters and synaptic states (trainable initial states) live in the edge table
+            p = _pick(list(table["params"]) + list(table["states"]), op["u"])
+            if p is None:
+                return None
+            return {"op": k, "key": f"{t}_{p}", "edges": sel}
+        if k == "delete_trainables_edge":
+            pre = [int(x) for x in ed.loc[sel, "pre_global_comp_index"]] if "pre_global_comp_index" in ed.columns else [int(x) for x in ed.loc[sel, "global_pre_comp_index"]]
+            post = [int(x) for x in ed.loc[sel, "post_global_comp_index"]] if "post_global_comp_index" in ed.columns else [int(x) for x in ed.loc[sel, "global_post_comp_index"]]
+            return {"op": "delete_trainables", "via": "edges", "edges": sel, "rows": sorted(set(pre) | set(post)), "whole": False}
         pool = list(table["states"]) + ["__current__"]
         p = _pick(pool, op["pick"])
         state = f"i_{t}" if p == "__current__" else f"{t}_{p}"
@@ -259,7 +273,12 @@ def apply(m, rec):
     elif k == "make_trainable":
         nview(m, rec["rows"]).make_trainable(rec["key"], verbose=False)
     elif k == "delete_trainables":
-        nview(m, rec["rows"]).delete_trainables()
+        if rec.get("via") == "edges":
+            m.select(edges=rec["edges"]).delete_trainables()
+        else:
+            nview(m, rec["rows"]).delete_trainables()
+    elif k == "make_trainable_edge":
+        m.select(edges=rec["edges"]).make_trainable(rec["key"], verbose=False)
     elif k == "connect":
         connect(m.select(nodes=[rec["pre"]]), m.select(nodes=[rec["post"]]), getattr(js, rec["type"])())
     elif k == "set_edge":
@@ -337,7 +356,7 @@ def footprint(m_before_snapshot, rec):
         return {"recordings"}, none, none, set()
     if k in ("stimulate", "clamp", "delete_stimuli", "delete_clamps"):
         return {"externals", "external_inds"}, none, none, set()
-    if k in ("make_trainable", "delete_trainables"):
+    if k in ("make_trainable", "make_trainable_edge", "delete_trainables"):
         return {"trainable_params", "indices_set_by_trainables"}, none, none, set()
     if k == "connect":
         return {"edges", "synapse_names"}, none, (lambda c: True), set()
